@@ -100,6 +100,12 @@ func GetBox(txData []byte) (*Box, error) {
 	if err != nil {
 		return nil, err
 	}
+	// a JSON null in the list decodes to a nil transaction
+	for _, subTx := range box.SubTxList {
+		if subTx == nil {
+			return nil, ErrNilSubTx
+		}
+	}
 	return box, nil
 }
 
